@@ -25,7 +25,7 @@ func cleanError(r *gwResponse) bool {
 
 func runC11(cfg runCfg) error {
 	sum := &summary{Property: "C11", Seed: cfg.seed, Features: map[string]int{}, CaseInputs: map[string]interface{}{},
-		Rule: "fixture movies x data graph x 4-5 client requests valid in the old generation (one of them selecting what the change removes) x one change: a root or entity field dropped from one service's schema and re-polled (UpdateSchema), a service removed from the service list (UpdateServiceList) with polls slowed down so that the requests run inside the window, or the schema change carried out completely while half of the requests are parked between validation and execution (a blocking InterceptRequest); each request of each case is judged: response = answer of a fresh gateway of the old generation, or of the new generation, or an error-only response; no 'internal system error', no timeout; non-trivial = some request's old and new answers differ"}
+		Rule: "fixture movies x data graph x 4-5 client requests valid in the old generation (one of them selecting what the change removes) x one change: a root or entity field dropped from one service's schema and re-polled (UpdateSchema), a service removed from the service list (UpdateServiceList) with polls slowed down so that the requests run inside the window (in half of these a slow forced poll is already under way when the list is replaced), or the schema change carried out completely while half of the requests are parked between validation and execution (a blocking InterceptRequest); each request of each case is judged: response = answer of a fresh gateway of the old generation, or of the new generation, or an error-only response; no 'internal system error', no timeout; non-trivial = some request's old and new answers differ"}
 	w := &caseWriter{dir: cfg.out, shard: 1000, check: "check_refresh_case", imports: "From V Require Import Base.Util Model.Refresh Corr.RefreshCheck."}
 	fx := fixtures[0]
 	fed, err := splitFederation(fx.SDL)
@@ -143,8 +143,13 @@ func runC11(cfg runCfg) error {
 			}
 		}
 		// the slowed poll answers are prepared here, on this goroutine: the PRNG is not shared with the refresher
+		// in half of the list replacements an ordinary (forced) poll is already under way, slowly, when the list is replaced
+		duringPoll := kind == "list_replaced" && r.Intn(2) == 0
 		slow := func(sdl string) func() (string, *fault) {
 			d := time.Duration(2+r.Intn(3)) * time.Millisecond
+			if duringPoll {
+				d = time.Duration(20+r.Intn(10)) * time.Millisecond
+			}
 			return func() (string, *fault) {
 				time.Sleep(d)
 				return sdl, nil
@@ -187,6 +192,14 @@ func runC11(cfg runCfg) error {
 					if s.Name != x.Name {
 						urls = append(urls, s.URL)
 					}
+				}
+				if duringPoll {
+					pollDone := make(chan struct{})
+					go func() { _ = gw.es.UpdateSchema(context.Background(), true); close(pollDone) }()
+					time.Sleep(3 * time.Millisecond)
+					err := gw.es.UpdateServiceList(context.Background(), urls)
+					<-pollDone
+					return err
 				}
 				return gw.es.UpdateServiceList(context.Background(), urls)
 			}
@@ -243,6 +256,9 @@ func runC11(cfg runCfg) error {
 			go func() { defer rw.Done(); runRefresh() }()
 			for i := range reqs {
 				time.Sleep(jitter[i])
+				if duringPoll && i == len(reqs)-1 {
+					time.Sleep(6 * time.Millisecond) // arrives while the poll is still out and the list replacement is queued
+				}
 				start(i, false)
 			}
 			rw.Wait()
@@ -295,6 +311,9 @@ func runC11(cfg runCfg) error {
 				"parked_between_validation_and_execution": kind == "swap_between_validation_and_execution" && i%2 == 0,
 				"data": "generated from the case seed", "response": respKey(resp)}
 			sum.Features["kind_"+kind]++
+			if duringPoll {
+				sum.Features["list_replaced_during_a_slow_poll"]++
+			}
 		}
 		if hung || refreshHung {
 			sum.Features["stopped_after_a_hang"]++
